@@ -161,6 +161,27 @@ fn world(fields: &[String]) -> Vec<String> {
             continue;
         }
         let (idx, text) = f.split_once(':').unwrap();
+        // `E<index>:<program text>`: write the text as prog.scm into a fresh directory that also holds a library file util.sld,
+        // and run it on that instance through `eval_file` (as `ruschm FILE` does)
+        if let Some(eidx) = idx.strip_prefix('E') {
+            let eidx: usize = eidx.parse().unwrap();
+            let dir = std::env::var("HX_TMP").unwrap_or_else(|_| "/verif/build/tmp".to_string());
+            let wdir = format!("{}/wfile-{}-{}", dir, std::process::id(), out.len());
+            std::fs::create_dir_all(&wdir).ok();
+            std::fs::write(format!("{}/util.sld", wdir), "(define-library (util) (import (scheme base)) (export f) (begin (define (f) 1)))").ok();
+            let path = std::path::PathBuf::from(format!("{}/prog.scm", wdir));
+            std::fs::write(&path, text).ok();
+            match insts.get_mut(eidx) {
+                Some(it) => match std::panic::catch_unwind(std::panic::AssertUnwindSafe(|| it.eval_file(path))) {
+                    Ok(Ok(Some(v))) => out.push(format!("V {}", crate::canon_value(&v))),
+                    Ok(Ok(None)) => out.push("N".to_string()),
+                    Ok(Err(e)) => out.push(crate::canon_err(&e)),
+                    Err(p) => out.push(crate::panic_message(p)),
+                },
+                None => out.push("X no-instance".to_string()),
+            }
+            continue;
+        }
         // `R<index>:<name>=<source>`: register a library source on that instance (result `reg-ok` or the error)
         if let Some(ridx) = idx.strip_prefix('R') {
             let ridx: usize = ridx.parse().unwrap();
